@@ -360,8 +360,12 @@ func checkC19(w *World, r *Report) {
 			why = iss[0].Why + " at " + w.PosStr(iss[0].Pos)
 			// second view: pairing by path conditions (guard clauses, continue instead of nesting)
 			ef := w.SSAFunc(w.Method("data/encoding", "JSONWriter", "encodeJsonChildren"))
-			if ssaPairing(w, ef, func(c *ssa.Call) bool { return c.Call.StaticCallee() != nil && c.Call.StaticCallee().Object() == types.Object(push) },
-				func(c *ssa.Call) bool { return c.Call.StaticCallee() != nil && c.Call.StaticCallee().Object() == types.Object(pop) }) == "" {
+			if ssaPairing(w, ef, func(c *ssa.Call) bool {
+				return c.Call.StaticCallee() != nil && c.Call.StaticCallee().Object() == types.Object(push)
+			},
+				func(c *ssa.Call) bool {
+					return c.Call.StaticCallee() != nil && c.Call.StaticCallee().Object() == types.Object(pop)
+				}) == "" {
 				iss = nil
 			}
 		}
